@@ -27,7 +27,7 @@ for i in range(1, 21):
         checks.append({
             'property_id': pid,
             'quick_cmd': '/verif/bin/gobv check -p %s -tier quick' % pid,
-            'thorough_cmd': '/verif/bin/gobv check -p %s -tier thorough' % pid,
+            'thorough_cmd': "sh -c '/verif/bin/gobv check -p %s -tier thorough; rc=$?; if [ $rc -ne 0 ]; then exit $rc; fi; python3 /verif/selftest/run.py --evidence %s | tail -1'" % (pid, pid),
             'evidence_file': '/verif/evidence/%s.json' % pid,
             'replay_cmd_template': '/verif/bin/gobv replay {path}',
             'engine': 'gobv',
